@@ -20,7 +20,9 @@
 (*   verdict  "pass" | "fail" | "skip";  msg  "none" | "timedout" |        *)
 (*            "cmdfail" | "cmdsuccess" | "other"  (failure message class)  *)
 (*   alive    the child process still exists after the run                 *)
-(*   s        scheduling slack granted to this observation                 *)
+(*   s        scheduling slack granted to this observation (srun: to the   *)
+(*            whole run); jit: largest scheduling delay measured while it  *)
+(*            was taken                                                    *)
 (*                                                                         *)
 (* The statement: a script blocked in a foreground command is interrupted  *)
 (* two grace periods before the deadline, force-killed one grace period    *)
@@ -66,20 +68,34 @@ MustBeKilled(o) == /\ Blocked(o) /\ o.onint = "ignore" /\ o.sig # Never
 \* the child was in fact force-killed: it ignores the interrupt, got it, never reached its own exit
 WasKilled(o) == o.onint = "ignore" /\ o.sig # Never /\ o.selfexit = Never /\ ~o.hung
 
-\* ---- laws a slow machine cannot break ----
+\* ---- laws a slow machine cannot break (load only delays things) ----
 HFinished(o)          == ~o.hung
+\* never interrupted before two grace periods before the deadline
 HNotEarlyInt(o)       == o.sig # Never => o.sig + Delta >= IntTime(o.D)
-HInterruptedIfBlocked(o) == Blocked(o) /\ ~o.hung => o.sig # Never
-HVerdictBlocked(o)    == Blocked(o) /\ ~o.hung => Reported(o) = TimedOut
-HVerdictEarly(o)      == Early(o) /\ ~o.hung => o.sig = Never /\ Reported(o) = Natural(o)
+\* a blocked command that did not leave on its own was interrupted (it was not just killed, or left alone)
+HInterruptedIfBlocked(o) == Blocked(o) /\ ~o.hung /\ o.selfexit = Never => o.sig # Never
+\* blocked: failed, with a timed-out message - also for `! exec`, also when the child then leaves during the grace period
+HVerdictBlocked(o)    == Blocked(o) /\ ~o.hung /\ (o.selfexit = Never \/ o.sig # Never) => Reported(o) = TimedOut
+\* finished earlier: never signalled, own verdict.  (Only a subtest that was itself still busy reporting when the
+\* interrupt time came - slow machine - may already see the expired context and say "timed out".)
+HVerdictEarly(o)      == Early(o) /\ ~o.hung =>
+                            /\ o.sig = Never
+                            /\ \/ Reported(o) = Natural(o)
+                               \/ (o.done + Delta >= IntTime(o.D) /\ Reported(o) = TimedOut)
+\* about the moment the deadline fires: either attribution, nothing else
 HVerdictBoundary(o)   == Boundary(o) /\ ~o.hung => Reported(o) \in {Natural(o), TimedOut}
 HNoChildLeft(o)       == ~o.alive
 
-\* ---- laws that bound a delay by the slack ----
-SIntOnTime(o)         == Blocked(o) /\ o.sig # Never => o.sig <= IntTime(o.D) + o.s
+\* ---- laws that bound a delay by the slack (load sensitive) ----
+\* interrupted two grace periods before the deadline
+SIntOnTime(o)         == Blocked(o) /\ ~o.hung => o.sig # Never /\ o.sig <= IntTime(o.D) + o.s
+\* force-killed one grace period later if it ignores the interrupt ...
 SKillOnTime(o)        == MustBeKilled(o) /\ ~o.hung => o.selfexit = Never /\ o.last <= o.sig + Grace(o.D) + o.s
-SKillNotBeforeGrace(o) == WasKilled(o) => o.last + Delta >= o.sig + Grace(o.D)
-SDoneByDeadline(o)    == ~o.hung => o.done <= o.D + o.s /\ o.rundone <= o.D + o.s
+\* ... and not before (last = last sign of life; the child may have been starved for a few jit before the kill)
+SKillNotBeforeGrace(o) == WasKilled(o) => o.last + Delta + 3 * o.jit >= o.sig + Grace(o.D)
+\* RunT and all its subtests finish by the deadline
+SDoneByDeadline(o)    == ~o.hung => o.done <= o.D + o.s /\ o.rundone <= o.D + o.srun
+\* scripts that finish earlier are not held back
 SEarlyUndelayed(o)    == Early(o) /\ ~o.hung => o.done <= o.selfexit + o.s
 
 AllLaws(o) == /\ HFinished(o) /\ HNotEarlyInt(o) /\ HInterruptedIfBlocked(o) /\ HVerdictBlocked(o)
